@@ -145,6 +145,10 @@ type c17Job struct {
 	run  func() ([]byte, error) // result bytes compared with the sequential reference
 	ref  []byte
 	sem  func(out []byte) string // optional semantic comparison when bytes differ ("" = ok)
+	// answerOpen: the sequential answer is itself not a function of the input (worlds with ids that are not URIs: such an id registers
+	// its schema under the base location, and whether a later reference back to that location meets it depends on map order);
+	// these jobs are there for the race detector and the deadlock watch only
+	answerOpen bool
 }
 
 // runConcurrently releases all jobs from a barrier and returns their results.
@@ -345,7 +349,7 @@ func c17Run(env *core.Env, idx int) core.CaseResult {
 			run := expandJob(w, kind, mk)
 			in := oworld(w)
 			root := w.Root
-			j := c17Job{name: fmt.Sprintf("g%d kind%d", g, kind), run: run}
+			j := c17Job{name: fmt.Sprintf("g%d kind%d", g, kind), run: run, answerOpen: strings.Contains(string(mustJSON(w.Docs)), `"id":"%zz-`)}
 			if kind == 1 {
 				// the same element expanded alone may differ in bytes (map order on cycles): compare denotations then
 				rootDoc, _ := w.Docs[w.Root].(map[string]interface{})
@@ -548,6 +552,8 @@ func c17Run(env *core.Env, idx int) core.CaseResult {
 			case bytes.HasPrefix(got, []byte("ERROR: ")) && bytes.HasPrefix(j.ref, []byte("ERROR: ")):
 				// a world with several faults fails on whichever is met first (map order): failing is the answer
 				res.Count("both-fail", 1)
+			case j.answerOpen:
+				res.Count("answer-not-compared(invalid-id-world)", 1)
 			case !bytes.Equal(got, j.ref):
 				if j.sem != nil && errs[i] == nil {
 					if why := j.sem(got); why == "" {
@@ -894,4 +900,9 @@ func init() {
 			"race reports are read from the runtime's log file after the goroutines of a case are joined; exit codes are not trusted",
 			"a checker time-out of porcupine (2 min) is inconclusive, never a violation"},
 	})
+}
+
+func mustJSON(v interface{}) []byte {
+	b, _ := json.Marshal(v)
+	return b
 }
